@@ -1,4 +1,5 @@
 import GsModel.Props.C15
+import GsModel.Diff.Lift
 /-
   C13 — diff never reports a request-breaking change as compatible.
 
@@ -14,7 +15,13 @@ import GsModel.Props.C15
   * `undetected_*` — the statement is FALSE of the code for multipleOf, uniqueItems, an enum that is introduced, non-string
     enums, every constraint below an array parameter's `items`, and allOf-only schemas: counterexample theorems, each a
     known finding that the check replays on the real analyser with a witness request.
-  The lifting from CompareProps to the whole report is decided by the catalogue sweep on the real analyser: partial.
+  * `param_change_reported_breaking` — the LIFTING for parameters: if an endpoint and a parameter (by location and name,
+    path-level or operation-level) exist in both documents and CompareProps finds on the parameter's own level a code of
+    `requestNarrowing`, then EVERY report `Analyse` returns contains a Breaking entry, whatever else the documents contain,
+    for every fuel and iteration order (the analyser only appends: `Mono`; the loops reach every shared parameter:
+    `foldlM_reach`).  `param_maxLength_lower_reported`, `param_maximum_lower_reported`: two instances end to end.
+  The lifting for body schemas (through compareSchema, where the visited-key guard can skip a comparison) is decided by the
+  catalogue sweep on the real analyser: partial.
 -/
 namespace Gs.Props.C13
 open Gs Gs.Gen Gs.Diff
@@ -268,6 +275,70 @@ theorem detected_type_narrowing :
     (∃ ds, compareProps 3 { type := ["number"] } { type := ["integer"] } = .ok ds ∧ Code.NarrowedType ∈ changes ds) ∧
     (∃ ds, compareProps 3 { type := ["string"] } { type := ["string"], format := "date" } = .ok ds ∧ Code.NarrowedType ∈ changes ds) := by
   refine ⟨⟨_, rfl, by decide⟩, ⟨_, rfl, by decide⟩, ⟨_, rfl, by decide⟩⟩
+
+/-! ### lifting to the report: parameters -/
+
+theorem narrowing_is_a_change : ∀ c ∈ requestNarrowing, c ≠ Code.NoChangeDetected := by decide
+
+theorem param_change_reported_breaking (fl : Flags) (n : Nat) (a b : Spec) (pl : String) (hpl : pl ∈ paramLocations)
+    (um1 um2 : UM) (hum2 : um2 ∈ getURLMethodsFor b) (hf : findUM (getURLMethodsFor a) um2.url um2.method = some um1)
+    (name : String) (p1 p2 : Param)
+    (h1 : lookup (getParams um1.item.params um1.op.params pl) name = some p1)
+    (h2 : (name, p2) ∈ getParams um2.item.params um2.op.params pl)
+    (c : Code) (hc : c ∈ requestNarrowing)
+    (hdet : ∃ ds, compareProps n (forChain p1.chain) (forChain p2.chain) = .ok ds ∧ c ∈ changes ds) :
+    Outcome.Holds (fun ds => ∃ d ∈ ds, d.compat = Compat.Breaking) (analyse fl n a b) := by
+  obtain ⟨ds, hcmp, hmem⟩ := hdet
+  obtain ⟨td, htd, hch⟩ := List.mem_map.mp hmem
+  refine analyse_reports_param_change fl n a b pl hpl um1 um2 hum2 hf name p1 p2 h1 h2 ds hcmp td htd ?_ ?_
+  · rw [hch]; exact narrowing_is_a_change c hc
+  · rw [hch]; exact policy_sound_request c hc
+
+theorem forChain_type (s : Simple) (r : List Simple) : (forChain (s :: r)).type = [s.type] ∧ (forChain (s :: r)).format = s.format ∧
+    (forChain (s :: r)).ref = "" ∧ (forChain (s :: r)).v = s.v := ⟨rfl, rfl, rfl, rfl⟩
+
+/-- end to end: a string parameter whose maxLength is lowered -/
+theorem param_maxLength_lower_reported (fl : Flags) (n : Nat) (a b : Spec) (pl : String) (hpl : pl ∈ paramLocations)
+    (um1 um2 : UM) (hum2 : um2 ∈ getURLMethodsFor b) (hf : findUM (getURLMethodsFor a) um2.url um2.method = some um1)
+    (name : String) (p1 p2 : Param)
+    (h1 : lookup (getParams um1.item.params um1.op.params pl) name = some p1)
+    (h2 : (name, p2) ∈ getParams um2.item.params um2.op.params pl)
+    (s1 s2 : Simple) (r1 r2 : List Simple) (c1 : p1.chain = s1 :: r1) (c2 : p2.chain = s2 :: r2)
+    (t1 : s1.type = "string") (t2 : s2.type = "string") (hfm : s1.format = s2.format)
+    (x y : Int) (hx : s1.v.maxLength = some x) (hy : s2.v.maxLength = some y) (hlt : y < x) :
+    Outcome.Holds (fun ds => ∃ d ∈ ds, d.compat = Compat.Breaking) (analyse fl n a b) := by
+  refine param_change_reported_breaking fl n a b pl hpl um1 um2 hum2 hf name p1 p2 h1 h2 Code.NarrowedType (by decide) ?_
+  rw [c1, c2]
+  exact detected_maxLength_lower n _ _ x y (by simp [forChain, t1]) (by simp [forChain, t2]) hfm rfl rfl hx hy hlt
+
+/-- end to end: an integer / number parameter whose maximum is lowered -/
+theorem param_maximum_lower_reported (fl : Flags) (n : Nat) (a b : Spec) (pl : String) (hpl : pl ∈ paramLocations)
+    (um1 um2 : UM) (hum2 : um2 ∈ getURLMethodsFor b) (hf : findUM (getURLMethodsFor a) um2.url um2.method = some um1)
+    (name : String) (p1 p2 : Param)
+    (h1 : lookup (getParams um1.item.params um1.op.params pl) name = some p1)
+    (h2 : (name, p2) ∈ getParams um2.item.params um2.op.params pl)
+    (s1 s2 : Simple) (r1 r2 : List Simple) (c1 : p1.chain = s1 :: r1) (c2 : p2.chain = s2 :: r2)
+    (ty : String) (hty : ty = "integer" ∨ ty = "number") (t1 : s1.type = ty) (t2 : s2.type = ty) (hfm : s1.format = s2.format)
+    (e1 : s1.v.exclMax = s2.v.exclMax) (e2 : s1.v.exclMin = s2.v.exclMin)
+    (x y : Int) (hx : s1.v.maximum = some x) (hy : s2.v.maximum = some y) (hlt : y < x) :
+    Outcome.Holds (fun ds => ∃ d ∈ ds, d.compat = Compat.Breaking) (analyse fl n a b) := by
+  refine param_change_reported_breaking fl n a b pl hpl um1 um2 hum2 hf name p1 p2 h1 h2 Code.NarrowedType (by decide) ?_
+  rw [c1, c2]
+  exact detected_maximum_lower n _ _ ty hty x y (by simp [forChain, t1]) (by simp [forChain, t2]) hfm rfl rfl e1 e2 hx hy hlt
+
+/-- non-vacuity: two concrete documents meet every hypothesis of `param_maxLength_lower_reported` -/
+def paramLen (m : Int) : Param := { name := "q", loc := "query", chain := [{ type := "string", v := { maxLength := some m } }] }
+def opLen (m : Int) : Operation := { method := "get", params := [paramLen m], responses := [{ code := 200, desc := "ok" }] }
+def pathLen (m : Int) : PathItem := { url := "/a", ops := [opLen m] }
+def specLen (m : Int) : Spec := { paths := [pathLen m] }
+def umLen (m : Int) : UM := { url := "/a", method := "get", item := pathLen m, op := opLen m }
+
+example : Outcome.Holds (fun ds => ∃ d ∈ ds, d.compat = Compat.Breaking) (analyse {} 5 (specLen 10) (specLen 5)) :=
+  param_maxLength_lower_reported {} 5 (specLen 10) (specLen 5) "query" (by decide) (umLen 10) (umLen 5)
+    (show umLen 5 ∈ [umLen 5] from List.mem_cons_self) rfl "q" (paramLen 10) (paramLen 5) rfl
+    (show ("q", paramLen 5) ∈ [("q", paramLen 5)] from List.mem_cons_self)
+    _ _ [] [] rfl rfl rfl rfl rfl 10 5 rfl rfl (by decide)
+example : (analyse {} 5 (specLen 10) (specLen 5)).isOk = true := by decide
 
 /-! ### exit status -/
 
